@@ -25,6 +25,7 @@ from mc.engine.harness import Partial, Report, merge_all
 from mc.engine.pool import run_shards, split
 from mc.gen import bitmaps as BM
 from mc.gen import corpus
+from mc.gen import grammar as G
 from mc.gen import scenario as S
 from mc.ref import codec, message, nested
 from mc.ref.compare import same_value
@@ -90,12 +91,16 @@ def expected(td, selector, comps):
     n = len(td)
     subs = list(range(n)) if selector is None else apply_slice(slice_of(selector[1:]), list(range(n)))
     out = {}
-    for i in subs:
+    # a selector that selects nothing leaves no subset on which the path could be found undefined: the path is then
+    # judged on all subsets (a path that is undefined as such stays undefined under an empty selection)
+    for i in (subs or range(n)):
         root = {'id': 'TEMPLATE', 'members': td[i]}
         try:
-            out[i] = nested.evaluate(root, comps)
+            v = nested.evaluate(root, comps)
         except nested.Undefined:
             return ('undefined',)
+        if subs:
+            out[i] = v
     return ('ok', out)
 
 
@@ -146,7 +151,23 @@ def ordinary_ids(td, labels_all):
     return ids
 
 
-def judge_message(b, bound, variants=(), path_cap=None, slices_last_only=False):
+def _lattice():
+    vals = [None, -6, -4, -2, -1, 0, 1, 2, 3, 4, 6]
+    out = [None] + ['[%d]' % k for k in range(-6, 7)]
+    for a in vals:
+        for b in vals:
+            for c in (None, 1, 2, -1, -2):
+                t = '[%s:%s%s]' % ('' if a is None else a, '' if b is None else b, '' if c is None else ':%d' % c)
+                if t not in out:
+                    out.append(t)
+    return out
+
+
+LATTICE = _lattice()
+LATTICE_SELECTORS = [None] + ['@' + t for t in LATTICE[1:] if not (t[1:-1].lstrip('-').isdigit() and not -4 <= int(t[1:-1]) < 4)]
+
+
+def judge_message(b, bound, variants=(), path_cap=None, slices_last_only=False, SLICES=SLICES, SELECTORS=SELECTORS):
     """explore every (path, slice deviation, selector) of one message.  variants: other encodings of the same data
     (compressed / uncompressed) that must answer every query identically.
     -> (counters, list of (sig, detail, expr))"""
@@ -291,7 +312,10 @@ def msg_body(item, env, bound):
                 variants.append(restore(descs, subs, not env['compressed']))
             except (codec.RefError, ValueError):
                 pass
-        cnt, viols = judge_message(b, bound, variants)
+        if env.get('lattice'):
+            cnt, viols = judge_message(b, bound, variants, SLICES=LATTICE, SELECTORS=LATTICE_SELECTORS)
+        else:
+            cnt, viols = judge_message(b, bound, variants)
         return {'cnt': cnt, 'viols': viols, 'bytes': b, 'outcome': (len(subs[0].labels), len(subs[0].links), env['compressed'], cnt['paths'])}
     return body
 
@@ -403,14 +427,22 @@ def main(tier, seed):
     plan.append(('bitmap-u2-same-zero-count', same_zero, dict(nsub=2, compressed=False, vmap=[0, 1])))
     plan.append(('bitmap-u3-diff', list(BM.chain1(0, 2)), dict(nsub=3, compressed=False, vmap=[1, 0, 1])))
     plan.append(('bitmap-in-replication', list(BM.wrapped(BM.chain1(0), 2, True)), dict(nsub=1, compressed=False)))
+    # the whole slice lattice (start, stop in {-6..6}, step in {1, 2, -1, -2}, integers -6..6) at every single step and as
+    # subset selector, over templates with five siblings of one id (more matches than any early exit would keep)
+    lat = [('lattice|siblings', [G.N7] * 5 + [G.NS], None, ()),
+           ('lattice|in-fixed-replication', [104002] + [G.N7] * 4, None, ()),
+           ('lattice|associated', [204002, G.M21] + [G.N7] * 4 + [204000, G.NS], None, ())]
+    plan.append(('slice-lattice-u4', lat, dict(nsub=4, compressed=False, lattice=True)))
+    plan.append(('slice-lattice-c4', lat, dict(nsub=4, compressed=True, lattice=True)))
     if tier == 'thorough':
         plan.append(('G-u3', gpool, dict(nsub=3, compressed=False)))
     for name, items, env in plan:
         shards = split(items, 64)
         k = seed % len(shards)
         p = merge_all(run_shards(run_items, [(s, env, bound) for s in shards[k:] + shards[:k]]))
-        rep.add_part(name, p, bounds=dict(items=len(items), slice_deviations=bound, slices=len(SLICES) - 1,
-                                          selectors=len(SELECTORS) - 1, **env))
+        rep.add_part(name, p, bounds=dict(items=len(items), slice_deviations=bound,
+                                          slices=len(LATTICE if env.get('lattice') else SLICES) - 1,
+                                          selectors=len(LATTICE_SELECTORS if env.get('lattice') else SELECTORS) - 1, **env))
     msgs = list(corpus.messages(max_bytes=3000 if tier == 'quick' else 40000))
     cap = 40 if tier == 'quick' else 400
     p = merge_all(run_shards(run_corpus, [(s, cap) for s in split(msgs, 128)]))
